@@ -81,6 +81,13 @@ UNIT_DRIVERS = {
     "wal_reader": ["wal::log_enum_quick"],
     "wal_writer": ["wal::log_enum_quick"],
     "table_skip": ["sstable::table::roundtrip_enum_quick"],
+    "integrity": ["sstable::table::damage_sweep_body"],
+    "snapshot_registry": ["snapshot::registry_enum"],
+    "comparators": ["sstable::table::roundtrip_enum_quick"],
+    "commit_arith": ["transaction::conflict_enum"],
+    "manifest_invariant": ["levels::reopen_enum_quick"],
+    "batch_seq": ["batch::roundtrip_enum"],
+    "vlog_pointer": ["sstable::table::min_vlog_file_id_enum"],
     "table_add": ["sstable::table::roundtrip_enum_quick", "sstable::table::min_vlog_file_id_enum"],
     "table_meta": ["sstable::table::roundtrip_enum_quick"],
 }
